@@ -295,6 +295,12 @@ func (c *FSContext) Renumber(from, to int32) sys.Errno {
 		return sys.ENOTSUP
 	}
 
+	// Renumbering a descriptor onto itself leaves it as it is (like dup2):
+	// falling through would close the file and re-insert the closed entry.
+	if from == to {
+		return 0
+	}
+
 	// If toFile is already open, we close it to prevent windows lock issues.
 	//
 	// The doc is unclear and other implementations do nothing for already-opened To FDs.
